@@ -2,5 +2,5 @@ SPECIFICATION Spec
 CONSTANTS Sigma <- SigmaB
           MaxLen = 5
           Emit = FALSE
-INVARIANTS Recase Respace Decorate Typographic BlankLine
+INVARIANTS Recase Respace Decorate Typographic BlankLine TailLine
 CHECK_DEADLOCK FALSE
